@@ -42,7 +42,41 @@ func c07Frame(c *sim.Ctx) (frame []byte, fm []ref.Field, valid bool) {
 	frame, fm = ref.Encode(a)
 	valid = true
 	if t.Bool(1, 4) {
-		frame = damageBody(t, frame)
+		switch t.Int(4) {
+		case 0:
+			// bytes that TRAIL the structure inside a truthful frame (a decoder may
+			// accept or reject them - the same way under every schedule)
+			extra := t.Bytes(1 + t.Int(8))
+			frame = gen.FixRL(append(append([]byte{}, frame...), extra...))
+		case 1:
+			// a presence flag cleared or a reserved bit set in a flags byte of the body:
+			// what the flag announced now trails the structure / is not expected
+			if f2, ok := setReserved(t, frame, fm); ok {
+				frame = f2
+			} else {
+				frame = damageBody(t, frame)
+			}
+			for _, f := range fm {
+				if f.Name == "ConnectFlags" && t.Bool(1, 2) {
+					frame = append([]byte{}, frame...)
+					frame[f.Start] &^= []byte{0x40, 0x80, 0x04, 0xC0}[t.Int(4)] // password / user name / will flag
+				}
+			}
+		case 2:
+			// one of the aimed fault plans of C04
+			other, _ := ref.Encode(gen.Packet(t, gen.Cfg{Spec: true, NoHuge: true}))
+			// (with the remaining length made truthful again: C07 is about complete
+			// frames; what follows a frame on the stream belongs to the next one)
+			if d, _ := gen.Damage(t, frame, fm, other, false); len(d) >= 2 {
+				d = gen.FixRL(d)
+				if _, _, size, err := ref.SplitFrame(d); err == nil && size == len(d) {
+					frame = d
+				}
+			}
+		default:
+			frame = damageBody(t, frame)
+		}
+		fm = nil
 		valid = false
 	}
 	if t.Bool(1, 25) {
